@@ -24,7 +24,7 @@ for i in ids:
             if i in na:
                 notapp.append(dict(property_id=i, reason="PARTLY (sub-clauses not claimed): " + na[i]))
             continue
-    notapp.append(dict(property_id=i, reason=na.get(i, "no check built yet")))
+    notapp.append(dict(property_id=i, reason="NOT CLAIMED: " + na.get(i, "no check built yet")))
 man = dict(
     version=1,
     setup_cmd="python3 -c \"import json,sys; print('no build step: every check rebuilds from /repo with goto-cc')\"",
